@@ -171,6 +171,10 @@ EvalField(C, node, f, path) ==
                      THEN Res(NullV, <<ErrRec(p, "resolver", v.v)>>, <<call>>)      \* C06
                      ELSE IF v.k = "errs"                                           \* a group of n errors: one entry each
                      THEN Res(NullV, [i \in 1..v.v |-> ErrRec(p, "resolver", "group")], <<call>>)
+                     \* a group whose members are groups again (or wrap one): one entry per failure, i.e. per leaf member.
+                     \* "errsn" n: Errors{ Errors{m_1 .. m_n}, an error wrapping Errors{w} }  -> n + 1 entries
+                     ELSE IF v.k = "errsn"
+                     THEN Res(NullV, [i \in 1..(v.v + 1) |-> ErrRec(p, "resolver", "group")], <<call>>)
                      \* a resolver that returns a value TOGETHER WITH an error has failed: the position is null (C06).
                      \* Deviation ValueWithError: ggql keeps (and completes) the value next to the error entry.
                      ELSE IF v.k = "errval"
@@ -190,7 +194,10 @@ Complete(C, t, v, sels, path, site) ==
   THEN IF v.k = "node"
        THEN LET r == ExecSels(C, v.v, sels, path) IN Res(V("obj", r.val), r.errs, r.calls)
        ELSE Res(NullV, <<ErrRec(path, "not_an_object", "")>>, <<>>)
-  ELSE Res(v, <<>>, <<>>)             \* leaf: the universes of this family hold well-typed leaves (C05 has its own)
+  \* leaf: output coercion can fail (C06: null at that position plus one error addressing it).  The universes of this family
+  \* hold well-typed leaves except where they say otherwise: a word where a number or a boolean is declared (C05 has the full table)
+  ELSE IF t.n \in {"Int", "Float", "Boolean"} /\ v.k = "str" THEN Res(NullV, <<ErrRec(path, "coercion", "")>>, <<>>)
+  ELSE Res(v, <<>>, <<>>)
 
 \* a list accessor (AnyResolver.Nth) failing for element i of the list returned at `site`:
 \* that element is null and one error addresses it (C06)
